@@ -133,7 +133,7 @@ func (m *Model) RunRegistry(s *Sink, rule string) {
 							s.Violation(rule, fnKey(fn)+"|replaces a registry table", m.InstrPos(in), "%s replaces a table of an existing registry", fnKey(fn))
 						}
 					}
-					if g, ok := x.Addr.(*ssa.Global); ok && g.Name() == "customFunc" && fn.Name() != "init" {
+					if g, ok := x.Addr.(*ssa.Global); ok && canonGlobalName(g) == "customFunc" && fn.Name() != "init" {
 						nw++
 						s.Violation(rule, fnKey(fn)+"|replaces the registry", m.InstrPos(in), "%s replaces the whole custom-function registry: functions registered before are lost", fnKey(fn))
 					}
@@ -282,7 +282,7 @@ func (m *Model) RunRegistry(s *Sink, rule string) {
 			continue
 		}
 		c, ok := stripIface(ret.Results[0]).(*ssa.Call)
-		if !ok || c.Call.StaticCallee() == nil || c.Call.StaticCallee().Name() != "newError" {
+		if !ok || c.Call.StaticCallee() == nil || canonFnName(c.Call.StaticCallee()) != "newError" {
 			continue
 		}
 		if msg, ok := constOfValue(c.Call.Args[2]); ok && strings.Contains(msg, "doesn't exist for type") && len(variadicElems(c.Call.Args[3])) == 2 {
